@@ -55,6 +55,13 @@ func checkC20(w *World, r *Result) {
 			lw.lockIdx = i
 			continue
 		}
+		// an array of flags (`working [Psql+1]*bool`) is one cell per element
+		if at, isArr := f.Type().Underlying().(*types.Array); isArr {
+			for k := int64(0); k < at.Len(); k++ {
+				lw.flagIdx[i*1000+int(k)+1] = fmt.Sprintf("%s[%d]", f.Name(), k)
+			}
+			continue
+		}
 		lw.flagIdx[i] = f.Name()
 	}
 	if lw.lockIdx < 0 {
@@ -96,12 +103,42 @@ func (lw *lckWorld) isFmtPtr(t types.Type) bool {
 	return ok && n.Origin() == lw.fmtT.Origin()
 }
 
-func (lw *lckWorld) fieldAddr(v ssa.Value) (*ssa.FieldAddr, bool) {
+// cellRef names one flag cell of Formatters: a field (Field = its index), or one element of a field that is an array
+// of flags (Field = index*1000 + element + 1).
+type cellRef struct{ Field int }
+
+func (lw *lckWorld) fieldAddr(v ssa.Value) (*cellRef, bool) {
+	if ia, ok := v.(*ssa.IndexAddr); ok {
+		if fa, ok := ia.X.(*ssa.FieldAddr); ok && lw.isFmtPtr(fa.X.Type()) {
+			if _, isArr := lw.st.Field(fa.Field).Type().Underlying().(*types.Array); isArr {
+				k, isConst := ia.Index.(*ssa.Const)
+				if !isConst || k.Value == nil {
+					Undecided("the flag array %s is indexed by a value that is not a constant: the cells cannot be told apart", lw.st.Field(fa.Field).Name())
+				}
+				n, _ := constant.Int64Val(k.Value)
+				return &cellRef{fa.Field*1000 + int(n) + 1}, true
+			}
+		}
+		return nil, false
+	}
 	fa, ok := v.(*ssa.FieldAddr)
 	if !ok || !lw.isFmtPtr(fa.X.Type()) {
 		return nil, false
 	}
-	return fa, true
+	if _, isArr := lw.st.Field(fa.Field).Type().Underlying().(*types.Array); isArr {
+		return nil, false // the address of the whole array: its cells are reached through IndexAddr
+	}
+	return &cellRef{fa.Field}, true
+}
+
+// cellType: the type of a flag cell.
+func (lw *lckWorld) cellType(key int) types.Type {
+	if key >= 1000 {
+		if at, ok := lw.st.Field(key / 1000).Type().Underlying().(*types.Array); ok {
+			return at.Elem()
+		}
+	}
+	return lw.st.Field(key).Type()
 }
 
 // paramConfined: the callee uses its i-th parameter (a pointer) only to address fields, load and store through it.
@@ -142,22 +179,22 @@ func paramConfined(callee *ssa.Function, i int) bool {
 // flagAddr resolves an address to a probe flag of Formatters: the field itself (sub == -1), or a sub-field of a flag
 // that is a small struct (`fmts.flag.probed`).
 func (lw *lckWorld) flagAddr(v ssa.Value) (field, sub int, ok bool) {
+	if c, ok := lw.fieldAddr(v); ok {
+		return c.Field, -1, true
+	}
 	fa, isFA := v.(*ssa.FieldAddr)
 	if !isFA {
 		return 0, 0, false
 	}
-	if lw.isFmtPtr(fa.X.Type()) {
-		return fa.Field, -1, true
-	}
-	if inner, isFA := fa.X.(*ssa.FieldAddr); isFA && lw.isFmtPtr(inner.X.Type()) {
-		return inner.Field, fa.Field, true
+	if c, ok := lw.fieldAddr(fa.X); ok {
+		return c.Field, fa.Field, true
 	}
 	return 0, 0, false
 }
 
 // structFlag: the flag field is a struct value (status bits) rather than a pointer.
 func (lw *lckWorld) structFlag(field int) bool {
-	_, ok := lw.st.Field(field).Type().Underlying().(*types.Struct)
+	_, ok := lw.cellType(field).Underlying().(*types.Struct)
 	return ok
 }
 
